@@ -368,6 +368,24 @@ FIXED += [
      {"tables": [{"cols": [["id", "int64"], ["d", "datetime"], ["x", "datetime"]], "name": "t0", "rows": []}], "steps": [{"out": "v0", "table": "t0", "verb": "source"}, {"in": "v0", "items": [["b_t1", ["fn", "ge", [["fn", "count_star", [], {}], ["lit", 0]], {}]], ["q", ["lit", {"$d": "1974-12-25"}]]], "out": "v2", "verb": "summarize"}, {"in": "v2", "items": [["q", ["lit", 11.0, "float64"]]], "out": "v3", "verb": "mutate"}, {"in": "v3", "items": [["k", ["fn", "all", [["col", {"c": "b_t1"}]], {"filter": [["col", {"c": "b_t1"}], ["col", {"n": "b_t1", "v": "v2"}]]}]]], "out": "v4", "verb": "mutate"}, {"in": "v4", "items": [["q", ["col", {"n": "q", "v": "v2"}]], ["a_r", ["col", {"c": "q"}]]], "out": "v5", "verb": "mutate"}], "result": "v5"}),
 ]
 
+FIXED += [
+    ('F52-sql-subquery-suffix-collision', 'C01', 'subquery column suffix avoids the names of other columns',
+     'SQL: the suffix given to a hidden column of the same name inside a subquery (a_t1 -> a_t1_1) collided with an existing column a_t1_1 -> InvalidRequestError',
+     json.loads('{"result": "v6", "steps": [{"out": "v0", "table": "t0", "verb": "source"}, {"in": "v0", "map": [["id", "a_t1"], ["c", "a_t1_1"]], "out": "v1", "verb": "rename"}, {"in": "v1", "n": 0, "offset": 1, "out": "v3", "verb": "slice_head"}, {"in": "v3", "items": [["a_t1", ["lit", true]]], "out": "v4", "verb": "mutate"}, {"in": "v4", "items": [["k", ["col", {"n": "a_t1", "v": "v3"}]], ["y", ["fn", "max", [["case", [[["fn", "fill_null", [["col", {"n": "a_t1", "v": "v4"}], ["col", {"c": "a_t1"}]], {}], ["cast", ["lit", {"$d": "1933-02-22"}], "datetime"]]], ["lit", null]]], {}]]], "out": "v6", "verb": "mutate"}], "tables": [{"cols": [["id", "int64"], ["c", "int64"], ["a", "int64"], ["y", "float64"]], "name": "t0", "rows": []}]}')),
+]
+
+FIXED += [
+    ('F53-join-hidden-const-window', 'C06', 'join subquery rules also look at deselected columns',
+     'SQL: a deselected literal (or window) column of a join operand was inlined after a left/full join: not null for unmatched rows (window: computed over the joined rows)',
+     json.loads('{"join_var": "v6", "result": "v7", "steps": [{"out": "v0", "table": "t0", "verb": "source"}, {"in": "v0", "items": [["a_r", ["lit", false]], ["a_t1", ["lit", 241.4375]]], "out": "v1", "verb": "mutate"}, {"cols": [{"n": "c", "v": "v1"}], "in": "v1", "out": "v3", "verb": "select"}, {"out": "v4", "table": "t2", "verb": "source"}, {"how": "full", "in": "v3", "on": [["fn", "eq", [["col", {"n": "a_t1", "v": "v1"}], ["col", {"n": "k", "v": "v4"}]], {}]], "out": "v6", "right": "v4", "verb": "join"}, {"in": "v6", "items": [["pr7", ["col", {"n": "a_r", "v": "v1"}]]], "out": "v7", "verb": "mutate"}], "tables": [{"cols": [["id", "int64"], ["c", "date"], ["k", "int64"], ["a", "datetime"]], "name": "t0", "rows": []}, {"cols": [["id", "int64"], ["b", "int64"], ["k", "float64"], ["a", "int64"], ["x", "int64"]], "name": "t2", "rows": [[6, 1283, -1.5, 7, -3134]]}], "validate": "check"}')),
+]
+
+FIXED += [
+    ('F54-polars-neg-generic-int', 'C12', 'Polars negation of an unsigned value typed as generic Int',
+     'Polars: -(min of a UInt32 column) raised InvalidOperationError (neg not supported for u32): the aggregate is typed as generic Int',
+     json.loads('{"result": "v2", "steps": [{"out": "v0", "table": "t1", "verb": "source"}, {"in": "v0", "items": [["q", ["fn", "neg", [["fn", "min", [["col", {"c": "a"}]], {"filter": [["col", {"c": "d"}]]}]], {}]]], "out": "v2", "verb": "summarize"}], "tables": [{"cols": [["id", "int64"], ["k", "float64"], ["d", "bool"], ["a", "uint32"]], "name": "t1", "rows": [[11, -168.5, null, null]]}]}')),
+]
+
 
 def main():
     log = subprocess.run(["git", "-C", "/repo", "log", "--format=%h %s"], capture_output=True, text=True).stdout.splitlines()
